@@ -208,6 +208,28 @@ func (m *Model) RunErrLine(s *Sink, rule string) {
 			s.Violation(rule, fnKey(st)+"|evaluation path is the template's absolute path", m.Pos(st.Pos()), "the evaluation context of a page does not carry the absolute path of the page's file")
 		}
 	}
+	// the evaluator that renders the page is built in this call from that context
+	if st != nil {
+		ok := false
+		for _, b := range st.Blocks {
+			for _, in := range b.Instrs {
+				c, isC := in.(*ssa.Call)
+				if !isC || !isEvalCall(m, c) {
+					continue
+				}
+				if nc, isN := c.Call.Args[0].(*ssa.Call); isN && nc.Call.StaticCallee() != nil && nc.Call.StaticCallee().Name() == "New" && inPkg(nc.Call.StaticCallee(), "evaluator") {
+					if cc, isCC := nc.Call.Args[0].(*ssa.Call); isCC && cc.Call.StaticCallee() != nil && cc.Call.StaticCallee().Name() == "NewContext" {
+						ok = true
+					}
+				}
+			}
+		}
+		if ok {
+			s.OK(rule, fnKey(st)+"|each render gets its own evaluator and context", m.Pos(st.Pos()), "Eval is called on evaluator.New(ctx.NewContext(absPath, ...)) created in this call")
+		} else {
+			s.Violation(rule, fnKey(st)+"|each render gets its own evaluator and context", m.Pos(st.Pos()), "the evaluator (or its context) used by String is not created in the call from the page's own path (e.g. cached on the Template): errors of later renders name the file of an earlier one")
+		}
+	}
 	pp := m.PkgFunc("textwire", "parseProgram")
 	if pp != nil {
 		ok := false
